@@ -473,6 +473,25 @@ impl Program {
         })
     }
 
+    /// the same program over a shifted alphabet: every code point in [0x41, 0x79] is replaced by its successor
+    /// (same shape, same ids in a fresh manager, different languages)
+    pub fn twin(&self) -> Program {
+        let f = |c: u32| if (0x41..=0x79).contains(&c) { c + 1 } else { c };
+        let ops = self
+            .ops
+            .iter()
+            .map(|op| match op {
+                Op::Char(c) => Op::Char(f(*c)),
+                Op::Range(a, b) => Op::Range(f(*a), f(*b)),
+                Op::CharSet(a, b) => Op::CharSet(f(*a), f(*b)),
+                Op::SmtRange(a, b) => Op::SmtRange(a.iter().map(|&c| f(c)).collect(), b.iter().map(|&c| f(c)).collect()),
+                Op::Str(s) => Op::Str(s.iter().map(|&c| f(c)).collect()),
+                other => other.clone(),
+            })
+            .collect();
+        Program { points: self.points.iter().map(|&c| f(c)).collect(), ops }
+    }
+
     /// all characters mentioned (points plus op literals)
     pub fn all_points(&self) -> Vec<u32> {
         let mut v = self.points.clone();
@@ -592,8 +611,12 @@ pub fn gen_points(rng: &mut Rng, prof: Profile) -> Vec<u32> {
         _ => {
             let n = 3 + rng.usize(5);
             let mut v = vec![0x61, 0x62];
+            // one program in eight: tiny code points, which coincide with term ids, class indices and small counts
+            let tiny = rng.chance(1, 8);
             for _ in 0..n {
-                if rng.chance(1, 6) {
+                if tiny {
+                    v.push(3 + rng.below(40) as u32);
+                } else if rng.chance(1, 6) {
                     v.push(rng.below(0x30000) as u32);
                 } else {
                     v.push(*rng.pick(&POINT_POOL));
@@ -1028,6 +1051,24 @@ impl<'a> Gen<'a> {
         }
     }
 
+    /// two operands for a binary constructor: one time in twelve the SAME result twice, one time in twelve a result
+    /// and its complement (x op x, x op not x)
+    fn pick2(&mut self) -> (usize, usize) {
+        let i = self.pick();
+        match self.rng.below(12) {
+            0 => (i, i),
+            1 => {
+                let c = self.push(Op::Comp(i), Kind::Other);
+                if self.rng.chance(1, 2) {
+                    (i, c)
+                } else {
+                    (c, i)
+                }
+            }
+            _ => (i, self.pick()),
+        }
+    }
+
     fn gen_wide_list(&mut self) {
         let n = *self.rng.pick(&[7usize, 8, 9, 15, 16, 17, 31, 32, 33, 63, 64, 65]);
         let base = 0x100 + self.rng.below(0x80) as u32 * 0x100;
@@ -1094,15 +1135,15 @@ impl<'a> Gen<'a> {
                 self.gen_atom();
             }
             1 => {
-                let (i, j) = (self.pick(), self.pick());
+                let (i, j) = self.pick2();
                 self.push(Op::Concat(i, j), Kind::Other);
             }
             2 => {
-                let (i, j) = (self.pick(), self.pick());
+                let (i, j) = self.pick2();
                 self.push(Op::Union(i, j), Kind::Other);
             }
             3 => {
-                let (i, j) = (self.pick(), self.pick());
+                let (i, j) = self.pick2();
                 self.push(Op::Inter(i, j), Kind::Other);
             }
             4 => {
@@ -1110,7 +1151,7 @@ impl<'a> Gen<'a> {
                 self.push(Op::Comp(i), Kind::Other);
             }
             5 => {
-                let (i, j) = (self.pick(), self.pick());
+                let (i, j) = self.pick2();
                 self.push(Op::Diff(i, j), Kind::Other);
             }
             6 => {
